@@ -341,12 +341,29 @@ func (sess *hopSession) newAuthGrantTube() (*tubes.Reliable, error) {
 	return sess.tubeMuxer.CreateReliableTube(common.AuthGrantTube)
 }
 
+// pfAllowed reports whether this session may forward ports. A session admitted
+// through authorization grants may only perform the actions its grants name,
+// and port forwarding cannot be granted yet (LocalPF/RemotePF grant data is
+// not implemented), so such a session is refused.
+func (sess *hopSession) pfAllowed() bool {
+	return !sess.usingAuthGrant
+}
+
 func (sess *hopSession) startPF(ch *tubes.Reliable) {
+	if !sess.pfAllowed() {
+		logrus.Warn("S: refusing port forwarding request of a session admitted through authorization grants")
+		ch.Close()
+		return
+	}
 	// TODO find a way of selecting a remote forwarding
 	// or a local forwarding
 	portforwarding.StartPFServer(ch, &sess.forward, sess.tubeMuxer)
 }
 
 func (sess *hopSession) handlePF(ch tubes.Tube) {
+	if !sess.pfAllowed() {
+		ch.Close()
+		return
+	}
 	portforwarding.HandlePF(ch, &sess.forward)
 }
